@@ -47,7 +47,7 @@ ASSUMPTIONS = [
 REQUIRED = ["roundtrips", "src_text", "src_bytes", "src_path", "offset_0", "offset_big",
             "rounding_tie_values", "comments_compared", "audit_file_opens", "rewrites_same_object",
             "trees_with_int64_ids", "same_path_rewritten_then_read",
-            "rejected_reads_before_roundtrip", "loaded_trees_saved_again", "size_sweep_cases",
+            "rejected_reads_before_roundtrip", "loaded_trees_saved_again", "size_sweep_cases", "src_path_other_spellings",
             "tap_to_swc", "tap_parse_swc", "tap_reset_index_"]
 FLOOR = {"quick": 500, "thorough": 40000}
 SHARDS = {"quick": 8, "thorough": 16}
@@ -143,7 +143,14 @@ def _exec(ctx, case, tmp):
                 ctx.count("src_file_descriptor")
             else:
                 t2 = Tree.from_swc(fname)
-            df, cm = su.read_swc(fname)
+            # the same file named by a pathlib.Path / a bytes path / relative to the working directory
+            import pathlib
+
+            alt = [pathlib.Path(fname), os.fsencode(fname), os.path.relpath(fname, os.getcwd()),
+                   fname][(case["vseed"] + w_i) % 4]
+            if alt is not fname:
+                ctx.count("src_path_other_spellings")
+            df, cm = su.read_swc(alt)
             log = audit.stop()
             opens = [p for p, _ in log if p == os.path.realpath(fname)]
             ctx.count("audit_file_opens", len(opens))
